@@ -6,7 +6,9 @@ property itself is VALIDATED: generated documents x builder configurations -> re
 (termination, exit status, panic message) -> `cargo check --offline` of the emitted code against /repo/pilota.
 
 correspondence  model vs implementation on case lines (Display, related_path, case conversion idempotence) and model vs
-                emitted text (field identifiers after collision rule + escaping, boxed fields)
+                emitted text (field identifiers after collision rule + escaping, boxed fields, and -- per item of every
+                generated document -- the AutoDerive decision of Derive.v on the item graph dumped by the harness vs the
+                #[derive(...)] attributes scraped from the emitted text)
 known findings  documents of a decidable known class (predicted from the document by the model / by a syntactic test)
                 are compiled in a crate of their own; a failure there is reported through chk.violation(cls=...) and
                 prints KNOWN-FINDING; any other failure is a VIOLATION with the shrunk document as replay.
@@ -49,6 +51,12 @@ WITNESSES = [
     W("const-of-set-type", {"main.thrift": "namespace rs w\nconst set<i32> S = [1, 2]\n"}, r"PANIC (assertion failed: l.is_empty|invalid map type)"),
     W("item-shadows-prelude-name", {"main.thrift": "namespace rs w\ntypedef i32 Some\nstruct S { 1: optional i32 x, 2: optional Some y }\n"}, r"E0308|E0423|E0532|E0618"),
     W("btree-container-of-double", {"main.thrift": 'namespace rs w\nstruct S { 1: map<i32, double> m (pilota.rust_type = "btree") }\n'}, r"E0277"),
+    W("derive-cycle-edge-outside-workspace-graph",
+      {"main.thrift": 'namespace rs w\nstruct A { 1: required B b, 2: required N n }\nstruct B { 1: optional A a (pilota.rust_wrapper_arc = "true") }\n'
+                      'struct N { 1: required double x }\n'}, r"E0277"),
+    W("derive-cycle-edge-outside-workspace-graph",
+      {"main.thrift": 'namespace rs w\nstruct A { 1: required B b, 2: required N n }\nstruct B { 1: required map<i32, A> a (pilota.rust_type = "btree") }\n'
+                      'struct N { 1: required double x }\n'}, r"E0277"),
     W("enum-default-through-typedef", {"main.thrift": "namespace rs w\nenum E { A = 1 }\ntypedef E Te\nstruct S { 1: Te e = E.A }\n"}, r"PANIC invalid convert"),
     W("type-named-like-generic-parameter", {"main.thrift": "namespace rs w\nunion T { 1: i32 a, 2: string b }\n"}, r"E0599|E0277"),
     W("type-named-like-generic-parameter", {"p0.proto": 'syntax = "proto3";\npackage w;\nmessage B {\n  int32 x = 1;\n  B next = 2;\n}\n'},
@@ -67,13 +75,18 @@ FINDING_IDS = {  # class -> id in known_findings.json
     "const-of-set-type": "F-14i", "item-shadows-prelude-name": "F-14j", "btree-container-of-double": "F-14k",
     "enum-default-through-typedef": "F-14l", "type-named-like-generic-parameter": "F-14m", "const-named-like-keyword": "F-14n",
     "value-item-named-like-local-binding": "F-14o", "service-name-underscore-digit": "F-14p", "proto-recursive-oneof-member": "F-14q",
-    "conversion-not-idempotent-collision": "F-14r"}
+    "conversion-not-idempotent-collision": "F-14r", "derive-cycle-edge-outside-workspace-graph": "F-14s"}
 
 
 # ------------------------------------------------------------------------------------------------ builder + cargo
-def run_builder(hb, kind, idl_dir, entry, out_file, cfg, timeout=120):
+def run_builder(hb, kind, idl_dir, entry, out_file, cfg, timeout=120, dump_derive=None):
     os.makedirs(os.path.dirname(out_file), exist_ok=True)
     cmd = [hb, "gen", kind, cfg["mode"], out_file] + cfg_flags(cfg)
+    if dump_derive:
+        os.makedirs(os.path.dirname(dump_derive), exist_ok=True)
+        if os.path.exists(dump_derive):
+            os.remove(dump_derive)
+        cmd += ["--dump-derive", dump_derive]
     if kind == "pb":
         cmd += ["--include", idl_dir]
     cmd += ["--", os.path.join(idl_dir, entry)]
@@ -196,7 +209,7 @@ def classes_of(doc, scopes, names, cfg, ucyc):
     return cls
 
 
-FIELD_RE = re.compile(r"^\s*pub ([A-Za-z_#][A-Za-z0-9_#]*): (.*?),?\s*$")
+FIELD_RE = re.compile(r"^\s*pub ([A-Za-z_#][A-Za-z0-9_#]*):\s*(.*?),?\s*$")
 
 
 def scrape_structs(text):
@@ -214,12 +227,70 @@ def scrape_structs(text):
                 while j < len(lines) and lines[j].rstrip() != close:
                     fm = FIELD_RE.match(lines[j])
                     if fm and len(lines[j]) - len(lines[j].lstrip()) == len(m.group(1)) + 4:
-                        fields.append((fm.group(1), fm.group(2)))
+                        ty = fm.group(2)
+                        # rustfmt breaks a long type over several, deeper indented, lines
+                        while j + 1 < len(lines) and lines[j + 1].strip() and len(lines[j + 1]) - len(lines[j + 1].lstrip()) > len(m.group(1)) + 4:
+                            j += 1
+                            ty += lines[j].strip()
+                        fields.append((fm.group(1), ty.rstrip(",")))
                     j += 1
                 i = j
             out.setdefault(m.group(2), []).append(fields)
         i += 1
     return out
+
+
+ITEM_RE = re.compile(r"^(\s*)pub (?:struct|enum) ((?:r#)?[A-Za-z_][A-Za-z0-9_]*)\b")
+
+
+def scrape_derives(text):
+    """-> {item name: [(has PartialOrd, has Hash+Eq+Ord), ...]} for every `pub struct N` / `pub enum N`, from the attribute
+    lines directly above it"""
+    out = {}
+    lines = text.split("\n")
+    for i, ln in enumerate(lines):
+        m = ITEM_RE.match(ln)
+        if not m:
+            continue
+        ds = set()
+        j = i - 1
+        block = []
+        # attribute lines above the item (rustfmt wraps a long #[derive( ... )] over several lines)
+        while j >= 0 and lines[j].strip() and lines[j].rstrip()[-1] in "],(" and not lines[j].strip().startswith(("pub ", "//")):
+            block.append(lines[j].strip())
+            j -= 1
+        for dm in re.finditer(r"#\[derive\((.*?)\)\]", " ".join(reversed(block)), flags=re.S):
+            ds |= {x.strip() for x in dm.group(1).split(",") if x.strip()}
+        out.setdefault(m.group(2), []).append(("PartialOrd" in ds, {"Hash", "Eq", "Ord"} <= ds))
+    return out
+
+
+def read_derive_dump(path):
+    """-> (order ids, [(id, emitted, rust name, body)]) or None"""
+    if not os.path.exists(path):
+        return None
+    order, items = [], []
+    for ln in open(path, encoding="utf-8", errors="replace").read().split("\n"):
+        t = ln.split(" ")
+        if t[0] == "ORDER":
+            order = [x for x in (t[1] if len(t) > 1 else "").split(",") if x]
+        elif t[0] == "ITEM" and len(t) == 5:
+            items.append((t[1], t[2] == "1", t[3], t[4]))
+    return order, items
+
+
+def derive_lines(dump):
+    order, items = dump
+    g = ";".join("%s=%s" % (i, body) for i, _, _, body in items)
+    return ["derive %s %s %s" % (tr, ",".join(order) or "-", g) for tr in ("po", "heo")]
+
+
+def parse_derive_answer(a):
+    """'<id>=Y ... | closed=1 wsc=1 btree=0 cons=1' -> ({id: Y|N|D}, {flag: bool}) or None (PANIC / FUEL / BADCASE)"""
+    if "|" not in a:
+        return None
+    left, right = a.split("|", 1)
+    return (dict(x.split("=") for x in left.split()), {k: v == "1" for k, v in (x.split("=") for x in right.split())})
 
 
 # ------------------------------------------------------------------------------------------------ the check
@@ -230,7 +301,7 @@ def gen_docs(rng, tier):
     docs = [dict(id="s0", kind="thrift", doc=sw, files=sw.texts(), entry="main.thrift")]
     for i in range(n_th):
         r = random.Random(rng.randrange(1 << 30))
-        doc = bldgen.gen_thrift_doc(r, exotic=r.choice([0.3, 0.6, 0.9]), union_cycles=0.08, path_kw_pairs=0.05)
+        doc = bldgen.gen_thrift_doc(r, exotic=r.choice([0.3, 0.6, 0.9]), union_cycles=0.08, path_kw_pairs=0.05, arc_btree_edges=0.08, btree_double=0.3)
         docs.append(dict(id="d%d" % i, kind="thrift", doc=doc, files=doc.texts(), entry="main.thrift"))
     for i in range(n_pb):
         r = random.Random(rng.randrange(1 << 30))
@@ -322,14 +393,17 @@ def run(chk, replay=None):
     chk.cov["trusted_base"] = core.TRUSTED_BASE[:3] + [
         "rustc / cargo check (the oracle of the validated part) and the pilota runtime crate the emitted code is checked against",
         "tools/extract_bld.py (KEYWORDS_SET / path-segment keyword tables), fam/bld/harness, fam/bld/runner/main.ml glue, pv/bldgen.py generators",
-        "hand-written models Names.v / Paths.v / BoxCycle.v (tied by line correspondences and by comparison with the emitted text)",
+        "hand-written models Names.v / Paths.v / BoxCycle.v / Derive.v (tied by line correspondences, by comparison with the emitted text, "
+        "Derive.v also by the regenerated predicate tables / graph accessor / source digests); which Rust types implement Hash/Eq/Ord/PartialOrd "
+        "(Derive.base_ok, kinds_ok) is written by hand",
         "the Rust reference keyword list (edition 2024) written from memory in Names.v; heck case conversion is a Section variable with the hypothesis `idempotent` (validated on the identifier pool on every run)",
         "NOT proved: that the emitted text type-checks (no formal model of rustc); validated by compilation of N documents (see distribution)"]
     chk.cov["rule"] = ("documents: generated Thrift documents (pv/bldgen.py, grammar G_thrift restricted as documented in fam/bld/NOTES.md) "
                        "and protobuf documents x builder configurations {single,split} x keep_unknown_fields x change_case x ignore_unused "
                        "(quick: 4 of the 16 per document, rotating; thorough: all 16); a case = one (document, configuration): builder in a child "
                        "process, then cargo check; non-trivial = the builder emitted at least one type; line cases: Display / related_path / "
-                       "conversion idempotence (model vs implementation); text cases: field identifiers and Box decisions per struct")
+                       "conversion idempotence (model vs implementation); text cases: field identifiers and Box decisions per struct, "
+                       "derive attributes per emitted struct / enum / newtype (model run on the item graph dumped by the harness)")
     if hb is None or not os.path.exists(FAM.runner):
         if not gate["ok"]:
             chk.violation("proof obligation broken: %s" % gate.get("failed"), dict(kind="proof", failed=gate.get("failed"), error=gate.get("error")), no_input=True)
@@ -421,14 +495,26 @@ def run(chk, replay=None):
     def build_clean(job):
         di, d, c, _ = job
         m = "%sc%s" % (d["id"], cfg_id(c))
-        return run_builder(hb, d["kind"], d["idl"], d["entry"], os.path.join(crate, "src", m, m + ".rs"), c)
+        return run_builder(hb, d["kind"], d["idl"], d["entry"], os.path.join(crate, "src", m, m + ".rs"), c,
+                           dump_derive=os.path.join(WORK, "dd", m + ".txt"))
     with ThreadPoolExecutor(max_workers=8) as ex:
         bres = list(ex.map(build_clean, clean))
+    # ---- the AutoDerive model on the item graph each run dumped (Derive.v through the runner)
+    dumps = {}
+    for (di, d, c, _) in clean:
+        m = "%sc%s" % (d["id"], cfg_id(c))
+        dd = read_derive_dump(os.path.join(WORK, "dd", m + ".txt"))
+        if dd is not None and dd[1]:
+            dumps[m] = dd
+    dkeys = sorted(dumps)
+    dans = core.run_lines(runner, [l for m in dkeys for l in derive_lines(dumps[m])], shards=1) if dkeys else []
+    dmodel = {m: (parse_derive_answer(dans[2 * i]), parse_derive_answer(dans[2 * i + 1])) for i, m in enumerate(dkeys)}
     mods, modinfo = [], {}
     dist = dict(documents=len(docs), thrift=len(th_docs), protobuf=len(docs) - len(th_docs), configurations={cfg_id(c): 0 for c in CONFIGS},
                 builder_runs=0, builder_failures=0, compiled_modules=0, emitted_lines=0, quarantined_runs=len(quarantined),
                 known_class_counts={}, items_per_doc=[d["doc"].size() for _, d in th_docs], files_per_doc=[len(d["files"]) for d in docs],
-                struct_blocks_compared=0, box_decisions_compared=0)
+                struct_blocks_compared=0, box_decisions_compared=0, derive_graphs=0, derive_items_compared=0, derive_items_not_found=0,
+                derive_decisions=dict(po_yes=0, po_no=0, heo_yes=0, heo_no=0, delayed=0), derive_model_inconsistent=0)
     for (di, d, c, _), b in zip(clean, bres):
         m = "%sc%s" % (d["id"], cfg_id(c))
         dist["builder_runs"] += 1
@@ -440,9 +526,52 @@ def run(chk, replay=None):
             dist["builder_failures"] += 1
             failing.append((d, c, "pilota-build did not finish normally: " + b["status"][:300], b, []))
             continue
+        dm = dmodel.get(m)
+        if dm is not None and (dm[0] is None or dm[1] is None):
+            mism.append(dict(case="%s %s derive graph" % (d["id"], cfg_id(c)), model_output="PANIC / FUEL / BADCASE", impl_output="builder finished",
+                             correspondence="AutoDerive (Derive.decisions vs emitted #[derive])", files=d["files"], cfg=c))
+            dm = None
+        if dm is not None:
+            dist["derive_graphs"] += 1
+            # the model's verdict on this document: does every derived impl type-check?  If not, and the document is in one of the
+            # two classes the theorem C14_derive_sound excludes, it is compiled on its own as a known-finding candidate
+            dcls = set()
+            for ans in dm:
+                if not ans[1]["cons"]:
+                    dist["derive_model_inconsistent"] += 1
+                    if ans[1]["btree"]:
+                        dcls.add("btree-container-of-double")
+                    elif not ans[1]["wsc"]:
+                        dcls.add("derive-cycle-edge-outside-workspace-graph")
+            if dcls:
+                quarantined.append((di, d, c, dcls))
+                shutil.rmtree(os.path.join(crate, "src", m), ignore_errors=True)
+                continue
         mods.append((m, m + ".rs"))
         modinfo[m] = (di, d, c)
         dist["emitted_lines"] += txt.count("\n")
+        # ---- derive decisions: model (on the dumped item graph) vs attributes in the emitted text
+        if dm is not None and c["mode"] == "single":
+            scraped = scrape_derives(txt)
+            want = {}
+            for iid, emitted, name, body in dumps[m][1]:
+                if not emitted or body[0] not in "MEN":
+                    continue
+                po, heo = dm[0][0].get(iid), dm[1][0].get(iid)
+                want.setdefault(name, []).append((po in ("Y", "D"), heo in ("Y", "D")))
+                dist["derive_decisions"]["po_yes" if po in ("Y", "D") else "po_no"] += 1
+                dist["derive_decisions"]["heo_yes" if heo in ("Y", "D") else "heo_no"] += 1
+                dist["derive_decisions"]["delayed"] += (po == "D") + (heo == "D")
+            for name, exp in sorted(want.items()):
+                got = scraped.get(name)
+                if got is None:
+                    dist["derive_items_not_found"] += len(exp)
+                    continue
+                dist["derive_items_compared"] += len(exp)
+                if sorted(exp) != sorted(got):
+                    mism.append(dict(case="%s %s derive %s" % (d["id"], cfg_id(c), name), model_output=sorted(exp), impl_output=sorted(got),
+                                     correspondence="AutoDerive (Derive.decisions vs emitted #[derive]; (PartialOrd, Hash+Eq+Ord) per item)",
+                                     files=d["files"], cfg=c))
         # ---- text correspondences (single-file outputs of thrift documents)
         if d["kind"] == "thrift" and c["mode"] == "single":
             structs = scrape_structs(txt)
@@ -502,6 +631,7 @@ def run(chk, replay=None):
                 failing.append((None, None, "emitted code does not compile (unattributed): %s %s" % (es[0][1], es[0][2][:200]), None, es))
 
     # ---- quarantined documents (predicted known-finding classes) and the fixed witnesses: one crate each
+    dist["quarantined_runs"] = len(quarantined)
     qlimit = 6 if chk.tier == "quick" else 60
     for di, d, c, cls in quarantined[:qlimit]:
         b, ok2, errs2 = compile_alone(hb, d["kind"], d["files"], d["entry"], c, "quar")
@@ -540,7 +670,7 @@ def run(chk, replay=None):
     dist["witnesses_not_reproduced"] = not_reproduced
     chk.cov["distribution"] = dist
     chk.cov["programs"] = dist["compiled_modules"] + min(len(quarantined), qlimit) + len(wit)
-    chk.cov["disagreements_checked"] = len(lines) + n_emit + dist["struct_blocks_compared"] + dist["box_decisions_compared"]
+    chk.cov["disagreements_checked"] = len(lines) + n_emit + dist["struct_blocks_compared"] + dist["box_decisions_compared"] + dist["derive_items_compared"]
     chk.cov["model_impl_mismatches"] = len(mism)
     for d in docs[:2]:
         chk.sample(dict(id=d["id"], kind=d["kind"], configs=[cfg_id(c) for c in d["cfgs"]], text=list(d["files"].values())[0][:600]))
